@@ -379,7 +379,6 @@ impl Check for C15 {
             ctx.sig.str(&format!("{:?}", cmd));
         }
         ctx.sig.u64(c.s.sched.seed);
-        ctx.sched = Some(c.s.sched.seed ^ c.s.cmds.len() as u64);
         ctx.cfg("short_socket_reads");
         if c.s.server_max_read > 0 {
             ctx.fired("short_socket_reads");
